@@ -529,6 +529,12 @@ def edit_byte_interval(
 
     size_delta = len(content) - length
 
+    # New content that starts beyond the initialized bytes: the (zero) bytes in
+    # front of it have to be spelled out first, otherwise the slice below
+    # would splice the content in at the end of the initialized bytes.
+    if content and offset > len(bi.contents):
+        bi.initialized_size = offset
+
     bi.size += size_delta
     bi.contents = (
         bi.contents[:offset] + content + bi.contents[offset + length :]
